@@ -8,6 +8,7 @@ Notation length := List.length.
 From SP Require Import Skel Gen Expected NetA Inv Pres Dead Top Ghost GhostPres NetTop.
 From SP Require Port.
 From SP Require WfModel AuditModel.
+From SP Require Result TaskFS TInv Glue Cor TaskTop.
 
 (* T1: the code shape the transition system was written against *)
 Theorem C04_code_conforms :
@@ -135,11 +136,28 @@ Proof. exact Port.port_progress. Qed.
 Theorem C04_nonvacuous : wf dia (fun _ => 2).
 Proof. exact dia_wf. Qed.
 
+(* "Consequently the set of files a workflow produces and their contents are a function of the workflow graph and its
+   inputs alone, not of timing": the tasks are (C04_deterministic); and for the files, in the task / file-store machine
+   (TaskFS: every task DAG, every initial store, with or without left-over temp dirs): two runs, under any two schedules,
+   that get all their tasks done hold the same content at every declared output -- both hold the sequential reference's *)
+Theorem C04_files_deterministic : forall (c : TaskFS.cfg) (f0 : Result.fs) (left1 left2 : nat -> bool), TInv.wfc c ->
+  forall fR, Glue.pre c f0 (TaskFS.nt c) = Some fR ->
+  forall s1 s2, Cor.reachable c f0 left1 s1 -> Cor.reachable c f0 left2 s2 ->
+  (forall t, t < TaskFS.nt c -> TaskFS.is_done (TaskFS.pcs s1 t) = true) ->
+  (forall t, t < TaskFS.nt c -> TaskFS.is_done (TaskFS.pcs s2 t) = true) ->
+  forall t x, t < TaskFS.nt c -> In x (Result.tout (TaskFS.tk c t)) -> TaskFS.fin s1 x = TaskFS.fin s2 x.
+Proof.
+  intros c f0 l1 l2 W fR P s1 s2 R1 R2 D1 D2 t x Ht Hx.
+  rewrite (TaskTop.complete_is_result c f0 l1 W fR P s1 R1 D1 t x Ht Hx).
+  rewrite (TaskTop.complete_is_result c f0 l2 W fR P s2 R2 D2 t x Ht Hx). reflexivity.
+Qed.
+
 Print Assumptions C04_code_conforms.
 Print Assumptions C04_tasks_are_zip.
 Print Assumptions C04_emitted_exactly_once.
 Print Assumptions C04_complete.
 Print Assumptions C04_deterministic.
+Print Assumptions C04_files_deterministic.
 Print Assumptions C04_zip_equation.
 Print Assumptions C04_reference_evaluator_zips.
 Print Assumptions C04_port_merge.
